@@ -170,6 +170,7 @@ class C19(Check):
 
     def extra_evidence(self):
         return {"variant_detected": self.variant, "variant_note": getattr(self, "variant_note", ""),
+                "kinds_skipped_because_an_entry_point_was_not_found": dict(self.skipped),
                 "prev_shape": self._prev_shape(),
                 "upd_cases_without_prev_comparison": getattr(self, "_skipped_upd", 0),
                 "note_prev": "spanning_tree._prev is read / preset only by the `upd` kind, through an adapter for the nested and the flat {(dpid, port): b} shape; "
